@@ -59,14 +59,19 @@ pub fn explore(prop: &str, seed: u64, index: u64, thorough: bool, st: &mut Stats
     match family_of(prop) {
         "D" => {
             let mut v = dfamily::explore(prop, seed, thorough, st);
+            #[cfg(feature = "sim")]
             if prop == "C13" {
                 v.extend(crate::zoo::explore_setup_for_c13(index, seed, st));
             }
             Some(v)
         }
+        #[cfg(feature = "sim")]
         "Z" => crate::zoo::explore(index, seed, thorough, st),
+        #[cfg(feature = "sim")]
         "W9" => Some(crate::w9::explore(seed, st)),
+        #[cfg(feature = "sim")]
         "W8" => Some(crate::w8::explore(prop, seed, thorough, st)),
+        #[cfg(feature = "sim")]
         "P" => Some(crate::pfamily::explore(seed, thorough, st)),
         "C" => Some(crate::cfamily::explore(prop, seed, thorough, st)),
         _ => panic!("no engine for property {}", prop),
@@ -76,10 +81,15 @@ pub fn explore(prop: &str, seed: u64, index: u64, thorough: bool, st: &mut Stats
 pub fn eval(r: &Replay) -> EvalOut {
     match r.family.as_str() {
         "D" => dfamily::eval_replay(r),
+        #[cfg(feature = "sim")]
         "Z" => crate::zoo::eval_replay(r),
+        #[cfg(feature = "sim")]
         "W9" => crate::w9::eval_replay(r),
+        #[cfg(feature = "sim")]
         "W8" => crate::w8::eval_replay(r),
+        #[cfg(feature = "sim")]
         "P" => crate::pfamily::eval_replay(r),
+        "X" => eval_xbuild(r),
         "C" => crate::cfamily::eval_replay(r),
         f => panic!("unknown family {}", f),
     }
@@ -249,6 +259,132 @@ pub fn eval_subprocess(r: &Replay, tag: &str) -> Option<EvalOut> {
 }
 
 // ------------------------------------------------------------------------------------------------
+// cross-build comparison (C19: the plan, C05: the outcome, "with and without the parallel
+// feature"): every build prints, for the same seeds, the digest of the executed layout and of
+// the world after a sequential dispatch; the digests must be equal in every build.
+
+pub fn xdigest_line(prop: &str, seed: u64) -> Option<(u64, u64, String)> {
+    let sc = crate::cfamily::xscenario(prop, seed)?;
+    let (canon, ld, wd) = crate::cfamily::xdigest(&sc);
+    Some((ld, wd, canon))
+}
+
+pub fn cmd_xdigest(prop: &str, base: u64, count: u64) {
+    crate::util::quiet_panics();
+    let out = std::io::stdout();
+    let mut o = out.lock();
+    for i in 0..count {
+        let seed = base.wrapping_add(i);
+        match std::panic::catch_unwind(|| xdigest_line(prop, seed)) {
+            Ok(Some((ld, wd, _))) => {
+                let _ = writeln!(o, "X {} {} {}", seed, ld, wd);
+            }
+            Ok(None) => {
+                let _ = writeln!(o, "X {} - -", seed);
+            }
+            Err(_) => {
+                let _ = writeln!(o, "X {} panic panic", seed);
+            }
+        }
+    }
+}
+
+fn other_builds() -> Vec<(String, String)> {
+    let mut v = Vec::new();
+    for (name, var) in [("no-parallel-feature", "VERIF_BIN_NOPAR"), ("real-rayon", "VERIF_BIN_REAL")] {
+        if let Ok(p) = std::env::var(var) {
+            if std::path::Path::new(&p).exists() {
+                v.push((name.to_string(), p));
+            }
+        }
+    }
+    v
+}
+
+fn run_xdigest(bin: &str, prop: &str, base: u64, count: u64) -> BTreeMap<u64, (String, String)> {
+    let mut m = BTreeMap::new();
+    if let Ok(out) = Command::new(bin).args(["xdigest", prop, &base.to_string(), &count.to_string()]).stderr(Stdio::null()).output() {
+        for l in String::from_utf8_lossy(&out.stdout).lines() {
+            let f: Vec<&str> = l.split_whitespace().collect();
+            if f.len() == 4 && f[0] == "X" {
+                if let Ok(s) = f[1].parse::<u64>() {
+                    m.insert(s, (f[2].to_string(), f[3].to_string()));
+                }
+            }
+        }
+    }
+    m
+}
+
+/// Returns (records of differences, comparisons made, builds compared).
+fn cross_build(prop: &str, base: u64, count: u64) -> (Vec<Replay>, u64, Vec<String>) {
+    let mut found = Vec::new();
+    let builds = other_builds();
+    if builds.is_empty() {
+        return (found, 0, vec![]);
+    }
+    let mut n = 0;
+    let own: BTreeMap<u64, (String, String)> = (0..count)
+        .filter_map(|i| {
+            let s = base.wrapping_add(i);
+            xdigest_line(prop, s).map(|(l, w, _)| (s, (l.to_string(), w.to_string())))
+        })
+        .collect();
+    for (name, bin) in &builds {
+        let other = run_xdigest(bin, prop, base, count);
+        for (s, (l, w)) in &own {
+            let Some((ol, ow)) = other.get(s) else { continue };
+            n += 1;
+            let class = if ol != l {
+                Some("plan-differs-across-builds")
+            } else if ow != w && prop == "C05" {
+                Some("result-differs-across-builds")
+            } else {
+                None
+            };
+            if let Some(class) = class {
+                if found.iter().any(|r: &Replay| r.class == class) {
+                    continue;
+                }
+                let sc = crate::cfamily::xscenario(prop, *s);
+                found.push(Replay {
+                    property: prop.to_string(),
+                    family: "X".into(),
+                    engine: "S+".to_string() + name,
+                    mode: "xbuild".into(),
+                    seed: *s,
+                    scenario: sc.map(|x| serde_json::to_value(x).unwrap()).unwrap_or(Value::Null),
+                    strategy: crate::run::StratSpec::NoPreempt,
+                    run_seed: 0,
+                    trace: None,
+                    class: class.to_string(),
+                    msg: format!("seed {}: the simulated build gives layout digest {} / result digest {}, the build '{}' gives {} / {}", s, l, w, name, ol, ow),
+                    digest: 0,
+                });
+            }
+        }
+    }
+    (found, n, builds.into_iter().map(|b| b.0).collect())
+}
+
+fn eval_xbuild(r: &Replay) -> EvalOut {
+    let mut vs = Vec::new();
+    if let Some((l, w, _)) = xdigest_line(&r.property, r.seed) {
+        for (name, bin) in other_builds() {
+            let o = run_xdigest(&bin, &r.property, r.seed, 1);
+            if let Some((ol, ow)) = o.get(&r.seed) {
+                if *ol != l.to_string() {
+                    vs.push(Violation { prop: r.property.clone(), class: "plan-differs-across-builds".into(), msg: format!("seed {}: layout digest {} here, {} in build '{}'", r.seed, l, ol, name) });
+                } else if *ow != w.to_string() && r.property == "C05" {
+                    vs.push(Violation { prop: r.property.clone(), class: "result-differs-across-builds".into(), msg: format!("seed {}: result digest {} here, {} in build '{}'", r.seed, w, ow, name) });
+                }
+            }
+        }
+    }
+    EvalOut { violations: vs, digest: 0, trace: vec![], steps: 0 }
+}
+
+// ------------------------------------------------------------------------------------------------
 // parent
 
 enum Msg {
@@ -388,6 +524,20 @@ pub fn cmd_check(prop: &str, tier: &str) {
                     live -= 1;
                 }
             }
+        }
+    }
+    // "with and without the `parallel` feature", "in every process and feature configuration"
+    if prop == "C19" || prop == "C05" {
+        let count = if thorough { 30_000 } else { 3_000 };
+        let (recs, n, builds) = cross_build(prop, base ^ 0x5eed_0000, count);
+        Stats::bump(&mut stats.extra, "cross_build_comparisons", n);
+        for b in builds {
+            Stats::bump(&mut stats.extra, &format!("cross_build_with_{}", b), 1);
+        }
+        stats.runs += n;
+        for r in recs {
+            total_found += 1;
+            found.entry(r.class.clone()).or_insert(r);
         }
     }
     let search_s = t0.elapsed().as_secs_f64();
